@@ -111,6 +111,8 @@ func init() {
 				w.monitorWire()
 				w.monitorDelivery("C01")
 				w.monitorPubrelWire("C05")
+				w.monitorPubrelWire("C03")
+				w.monitorQoS2Out()
 			},
 		}
 	})
